@@ -1,5 +1,6 @@
 import RedactVerif.Props.L2
 import RedactVerif.Props.FactsReset
+import RedactVerif.Props.FactsSkelPrinter
 /-
 C12 — a print call's result depends only on its own arguments.
 
